@@ -39,6 +39,13 @@ pub fn generate(stream: &str, n: usize, seed: u64, out: &mut dyn Write) {
         "avcc" => for _ in 0..n { gen_avcc(&mut r, out); },
         "bits" => for _ in 0..n { gen_bits(&mut r, out); },
         "bits-exh" => gen_bits_exhaustive(n, out),
+        "nalbits" => { let mut buf: Vec<u8> = vec![]; for _ in 0..n { buf.clear(); gen_bits(&mut r, &mut buf); let line = String::from_utf8(buf.clone()).unwrap();
+            // the same bit program over the escaped RBSP inside a chunked (sometimes incomplete) NAL
+            let toks: Vec<&str> = line.split_whitespace().collect();
+            let d = if toks[1] == "-" { vec![] } else { unhex(toks[1]) };
+            let mut nal = vec![0x65u8]; nal.extend(escape(&d));
+            let chunks = nonempty_partition(&mut r, &nal);
+            writeln!(out, "nalbits {} {} {}", join_chunks(&chunks), (r.below(4) != 0) as u8, toks[2..].join(" ")).unwrap(); } }
         "syntax" => gen_syntax(&mut r, n, out, false),
         "derived" => gen_syntax(&mut r, n, out, true),
         "ctx" => for _ in 0..n { gen_ctx(&mut r, out); },
@@ -576,6 +583,7 @@ fn gen_nal(r: &mut Rng, n: usize, out: &mut dyn Write) {
 fn emit_prefixes(r: &mut Rng, nal: &[u8], out: &mut dyn Write, count: &mut usize, with_complete: bool) {
     let mut nal = nal.to_vec();
     if r.below(6) == 0 && nal.len() > 2 { let i = 1 + r.below(nal.len() as u64 - 1) as usize; nal[i] = r.pick8(&[1, 0x80, 0xff, 0x10]); }
+    writeln!(out, "full {}", hex(&nal)).unwrap(); *count += 1;
     let step = 1 + nal.len() / 12;
     let mut l = 1;
     while l <= nal.len() {
@@ -612,7 +620,7 @@ fn gen_stream(r: &mut Rng, n: usize, out: &mut dyn Write) {
             if i + 1 == nals.len() { if r.below(3) == 0 { for _ in 0..(3 + r.below(3)) { s.push(0); } } }
         }
         let parts = partition(r, &s);
-        let mut line = String::from("stream");
+        let mut line = String::from(if r.below(3) == 0 { "stream H" } else { "stream B" });
         for p in &parts { line.push_str(&format!(" p:{}", hex(p))); }
         line.push_str(" r");
         writeln!(out, "{}", line).unwrap();
